@@ -410,16 +410,102 @@ def inline_new_helpers(tree, module_name, functions_of_class):
     return count
 
 
+def signatures(trees):
+    """function name -> the one parameter-name tuple (without self/cls) shared by every definition of
+    that name in the package, or None when definitions disagree."""
+    sigs = {}
+    for tree in trees:
+        for n in ast.walk(tree):
+            if isinstance(n, ast.FunctionDef):
+                if n.args.vararg or n.args.kwarg or n.args.kwonlyargs:
+                    sigs[n.name] = None
+                    continue
+                names = [a.arg for a in n.args.args]
+                if names and names[0] in ("self", "cls"):
+                    names = names[1:]
+                t = tuple(names)
+                if n.name in sigs and sigs[n.name] != t:
+                    sigs[n.name] = None
+                elif n.name not in sigs:
+                    sigs[n.name] = t
+    return sigs
+
+
+def positional_calls(tree, sigs):
+    """`f(a, k2=b)` -> `f(a, b)` when every definition of `f` in the package has the same parameter
+    order and the keywords continue the positional arguments without a gap."""
+    n_done = 0
+    for n in ast.walk(tree):
+        if not isinstance(n, ast.Call) or not n.keywords or any(k.arg is None for k in n.keywords):
+            continue
+        if any(isinstance(a, ast.Starred) for a in n.args):
+            continue
+        name = n.func.attr if isinstance(n.func, ast.Attribute) else (n.func.id if isinstance(n.func, ast.Name) else None)
+        sig = sigs.get(name)
+        if not sig:
+            continue
+        kw = {k.arg: k.value for k in n.keywords}
+        if not set(kw) <= set(sig):
+            continue
+        want = list(sig[len(n.args):len(n.args) + len(kw)])
+        if set(want) != set(kw):
+            continue        # a gap: a defaulted parameter in between is skipped
+        n.args = list(n.args) + [kw[w] for w in want]
+        n.keywords = []
+        n_done += 1
+    return n_done
+
+
+def new_module_constants(tree, module_name, base):
+    """module-level `NAME = <side-effect free expression>` that did not exist at baseline is substituted
+    into its uses in the module."""
+    known = set(base.get(module_name + ":", ()))
+    consts = {}
+    counts = {}
+    for n in ast.walk(tree):
+        if isinstance(n, ast.Name) and isinstance(n.ctx, (ast.Store, ast.Del)):
+            counts[n.id] = counts.get(n.id, 0) + 1
+    for st in tree.body:
+        if isinstance(st, ast.Assign) and len(st.targets) == 1 and isinstance(st.targets[0], ast.Name):
+            nm = st.targets[0].id
+            if nm in known or counts.get(nm, 0) != 1 or nm.startswith("__"):
+                continue
+            if _pure(st.value, {}, {}, set()):
+                consts[nm] = st.value
+    if not consts:
+        return 0
+    sub = _Subst(consts)
+    for st in tree.body:
+        if isinstance(st, ast.Assign) and len(st.targets) == 1 and isinstance(st.targets[0], ast.Name) \
+                and st.targets[0].id in consts:
+            continue
+        sub.generic_visit(st) if isinstance(st, (ast.FunctionDef, ast.ClassDef)) else sub.visit(st)
+    # _Subst stops at function boundaries: descend explicitly
+    for n in ast.walk(tree):
+        if isinstance(n, ast.FunctionDef):
+            shadow = {x.id for x in _own_walk(n) if isinstance(x, ast.Name) and isinstance(x.ctx, ast.Store)} | \
+                {a.arg for a in n.args.args}
+            inner = _Subst({k: v for k, v in consts.items() if k not in shadow})
+            for st in n.body:
+                inner.visit(st)
+            sub.done += inner.done
+    return sub.done
+
+
 def local_names(fn):
     return sorted({n.id for n in _own_walk(fn) if isinstance(n, ast.Name) and isinstance(n.ctx, ast.Store)})
 
 
-def normalize_module(tree, module_name):
+def normalize_module(tree, module_name, sigs=None):
     """Only what is NEW relative to the tree the rules were confirmed on is folded back: helpers that
-    did not exist then are inlined, locals that did not exist then (in that function) are substituted."""
+    did not exist then are inlined, locals and module constants that did not exist then are
+    substituted; keyword arguments are put back into positional order."""
     base = _baseline()
     if base is None:
         return 0, 0
+    if sigs:
+        positional_calls(tree, sigs)
+    new_module_constants(tree, module_name, base)
     classes = {}
     top = {}
     for n in tree.body:
@@ -434,6 +520,9 @@ def normalize_module(tree, module_name):
         return classes.get(name, {})
     n_inl = inline_new_helpers(tree, module_name, foc)
     n_exp = 0
+    for n in tree.body:
+        if isinstance(n, ast.ClassDef):
+            classes[n.name] = {c.name: c for c in n.body if isinstance(c, ast.FunctionDef)}
     for cname, fns in list(classes.items()) + [(None, top)]:
         for name, fdef in fns.items():
             q = "%s:%s.%s" % (module_name, cname, name) if cname else "%s:%s" % (module_name, name)
